@@ -4,12 +4,30 @@ KEYS['dispatchcloud_c16'] = {'pkg': 'lib/dispatchcloud'}
 KEYS['scheduler_c16'] = {'pkg': 'lib/dispatchcloud/scheduler'}
 
 CHECKS['C16'] = {
-    'ready': False,
+    'ready': True,
     'level': 'exploration',
-    'rule': 'TODO',
-    'assumptions': [],
+    'rule': 'choose: rapid-generated instance-type tables (0-12 types; RAM/scratch drawn within a few bytes of 1-3 anchors, 1-4 '
+            'distinct prices incl. 0 so ties are common, preemptible none/all/mixed) and a container constraint vector built at the '
+            'boundary of a target type (RAM+KeepCacheRAM+ReserveExtraRAM at floor(0.95*RAM)+{-1,0,1,2} and at RAM+{-1,0,1}, VCPUs +-1, '
+            'scratch need +-1 byte realised through tmp mounts and/or an image PDH whose size sits on the 42-byte block grid); the real '
+            'ChooseInstanceType result is compared with a brute-force math/big oracle that is three-valued at the 100/95 rounding byte. '
+            'Non-trivial = at least two types and the table offers a real choice (adequate and inadequate types coexist, or two adequate '
+            'types differ in price). '
+            'order: a queue snapshot of 1-8 containers (states, priorities with ties and 0, 1-3 types, leftover processes) against a '
+            'consistent recording pool (idle/booting per type, at-quota flag, per-call transient StartContainer failures, per-call Create '
+            'answers) drives one real runQueue() pass; the oracle reads the call log. Non-trivial = at least two waiting Locked containers '
+            'of the same type with different priorities, or an at-quota pass that unlocked a waiting container while >= 2 were waiting. '
+            'distinct = fingerprint of the full case description.',
+    'assumptions': [
+        'scratch reference is written from the heuristic documented in node_size.go comments (tmp capacities; image estimate ((n-80) div 42)*64MiB for PDH size n>=122, reserved twice)',
+        'a type whose RAM equals floor(need*100/95) but with RAM*95 < need*100 may be accepted or rejected (rounding direction not fixed by the property)',
+        'among equally priced adequate types any may be returned',
+        'priority ties are unordered; "waiting" = Locked in the snapshot, priority>0, no process reported by the pool',
+        'pool.Create may answer differently for successive calls within one pass (the WorkerPool contract allows it: throttling windows)',
+        'PDH sizes above 10^12 and negative capacities are not generated',
+    ],
     'units': [
-        unit('choose', 'dispatchcloud_c16', '^TestVerifC16Choose$', {'shards': 8, 'checks': 3000}, {'shards': 16, 'checks': 200000, 'timeout': 1500}),
-        unit('order', 'scheduler_c16', '^TestVerifC16Order', {'shards': 8, 'checks': 3000}, {'shards': 16, 'checks': 200000, 'timeout': 1500}),
+        unit('choose', 'dispatchcloud_c16', '^TestVerifC16Choose$', {'shards': 8, 'checks': 3000}, {'shards': 16, 'checks': 150000, 'timeout': 1500}),
+        unit('order', 'scheduler_c16', '^TestVerifC16Order', {'shards': 8, 'checks': 3000}, {'shards': 16, 'checks': 100000, 'timeout': 1500}),
     ],
 }
